@@ -695,6 +695,89 @@ def check_ld_base_select(run, repo):
     run.instance('C15-B', 'long-descriptor TTBR0/TTBR1 base selection', obligations=4, ok=ok, sample={'function': fn})
 
 
+def check_ld_descriptor_dispatch(run, repo):
+    """C15-D: the long-descriptor walk loop classifies every descriptor exactly as the architecture does:
+         descriptor<0> == 0                      -> Translation fault
+         descriptor<1:0> == 01, level 3          -> Translation fault (reserved encoding)
+         descriptor<1:0> == 01, level 1 or 2     -> block
+         descriptor<1:0> == 11, level 3          -> page (block_translate)
+         descriptor<1:0> == 11, level 1 or 2     -> table: the walk continues
+       decided as a truth table of the guards of the three kinds of events inside the loop."""
+    from ..effects import _SelfWalker
+    fi = repo.method('ArmV6', 'translation_table_walk_ld')
+    tr = _SelfWalker(repo, 'ArmV6', []).walk(fi, repo.cls('ArmV6'))
+    inloop = [e for e in tr.events if e.loops]
+    faults = [e for e in inloop if e.kind == 'ProcCall' and e.d['method'] == 'data_abort' and len(e.d['args']) > 5 and
+              e.d['args'][5] == ('enum', 'DAbort', 'TRANSLATION')]
+    blocks = [e for e in inloop if e.kind == 'LocalAssign' and e.d['name'] == 'block_translate' and e.d['value'] == ('const', True)]
+    tables = [e for e in inloop if e.kind == 'LocalAssign' and e.d['name'] == 'lookup_finished' and e.d['value'] == ('const', False)]
+    if not faults or not blocks or not tables:
+        raise AnalysisError('translation_table_walk_ld: the descriptor dispatch (translation fault / block_translate = True / '
+                            'lookup_finished = False inside the walk loop) was not found')
+    desc = [None]
+
+    def bit(t):
+        """k if t is bit_at(<descriptor>, k) for k in (0, 1), with one descriptor term throughout."""
+        if t[0] == 'call' and t[1] == 'bit_at' and t[2][1] in (('const', 0), ('const', 1)):
+            if desc[0] is None:
+                desc[0] = t[2][0]
+            if t[2][0] == desc[0]:
+                return t[2][1][1]
+        return None
+
+    def truth(t, valid, b1, l3):
+        if not isinstance(t, tuple) or not t:
+            return None
+        if t[0] == 'not':
+            r = truth(t[1], valid, b1, l3)
+            return None if r is None else not r
+        if t[0] in ('and', 'or'):
+            rs = [truth(x, valid, b1, l3) for x in t[1]]
+            if t[0] == 'and':
+                return False if False in rs else (True if all(r is True for r in rs) else None)
+            return True if True in rs else (False if all(r is False for r in rs) else None)
+        k = bit(t)
+        if k is not None:
+            return bool((valid, b1)[k])
+        if t[0] == 'cmp' and t[1] in ('Eq', 'NotEq'):
+            for a, b in ((t[2], t[3]), (t[3], t[2])):
+                k = bit(a)
+                if k is not None and b[0] == 'const' and b[1] in (0, 1):
+                    r = (valid, b1)[k] == b[1]
+                    return r if t[1] == 'Eq' else not r
+                if a[0] == 'loopcarried' and a[1] == 'current_level' and b == ('const', 3):
+                    return l3 if t[1] == 'Eq' else not l3
+        return None
+
+    def live(e, valid, b1, l3):
+        for term, pol, _ in e.guards:
+            r = truth(term, valid, b1, l3)
+            if r is not None and r != pol:
+                return False
+        return True
+    ok = True
+    rows = 0
+    for valid in (0, 1):
+        for b1 in (0, 1):
+            for l3 in (False, True):
+                rows += 1
+                want = 'fault' if (not valid or (b1 == 0 and l3)) else ('block' if (b1 == 0 or l3) else 'table')
+                got = {'fault': any(live(e, valid, b1, l3) for e in faults),
+                       'block': any(live(e, valid, b1, l3) for e in blocks),
+                       'table': any(live(e, valid, b1, l3) for e in tables)}
+                # after a fault nothing else matters (the abort does not return); otherwise exactly the wanted kind
+                bad = not got[want] or (want != 'fault' and any(v for k, v in got.items() if k != want))
+                if bad:
+                    ok = False
+                    run.violation('C15-D', fi.relpath, fi.qualname, 'descriptor<1:0>=%d%d level%s3' % (b1, valid, '==' if l3 else '!='),
+                                  'a long-format descriptor with bits<1:0> = %d%d at a level %s 3 must give `%s`; the walk loop gives %s'
+                                  % (b1, valid, '==' if l3 else '!=', {'fault': 'Translation fault', 'block': 'block / page translation',
+                                                                      'table': 'next-level table walk'}[want],
+                                     ', '.join(k for k, v in got.items() if v) or 'nothing'))
+    run.instance('C15-D', 'long-descriptor type dispatch', obligations=rows, ok=ok,
+                 sample={'function': fi.qualname, 'fault_sites': len(faults), 'block_sites': len(blocks), 'table_sites': len(tables)})
+
+
 def check_ld_hierarchical(run, repo):
     """C15-H  hierarchical table attributes of the long-descriptor walk: APTable / XNTable / PXNTable (descriptor bits 62:59) of a
     table descriptor restrict every lower level, so the variable a value from those bits is stored into must combine it with its
@@ -738,6 +821,10 @@ def check_ld_hierarchical(run, repo):
 def main(repo_path, tier, seed, replay=None):
     run = Run('C15', tier, level='other', seed=seed)
     repo = Repo(repo_path)
+    import re
+    from .. import memo
+    memo.check(run, repo, 'C15-MEMO', lambda rel, q: re.search(r'(translation_table_walk|translate_address|check_domain|check_permission|second_stage|fcse|remap|convert_attrs)', q) is not None,
+               'VMSA translation table walks, domain and permission checking')
     check_sd_walk(run, repo)
     check_fsr_tables(run, repo)
     check_domain_table(run, repo)
@@ -748,6 +835,7 @@ def main(repo_path, tier, seed, replay=None):
     check_ld_loop(run, repo)
     check_ld_base_select(run, repo)
     check_ld_hierarchical(run, repo)
+    check_ld_descriptor_dispatch(run, repo)
     # positive control: one descriptor slice moved by a bit (in memory)
     fi = repo.method('ArmV6', 'translation_table_walk_sd')
     src = fi.module.source
